@@ -23,6 +23,7 @@ def catalog(prog, tier):
         'do_stop': lambda: [V.vc_do_stop(prog, a, b) for a in (False, True) for b in (False, True)],
         'update': lambda: [V.vc_update(prog, c) for c in ('BaseMatching', 'DistanceMatching')],
         'upsert': lambda: [V.vc_upsert(prog, c, n, k) for c in ('BaseMatching', 'DistanceMatching') for n in (0, 1, 2) for k in (0, 1, 2)],
+        'set_delayed': lambda: [V.vc_set_delayed(prog)],
         'prune': lambda: [P.vc_prune(prog, t, w) for t in (False, True) for w in (False, True)],
         'obs': lambda: [V.vc_obs_distance(prog), V.vc_obs_simple(prog)],
         'match_states': lambda: [OC.vc_match_states(prog, k, f) for k, f in (('node', 'base'), ('edge', 'base'), ('edge', 'distance'))],
